@@ -665,3 +665,46 @@ def get_tree_from_consensus_graph(data, graph):
     tree.update()
     return tree
 """
+
+REFERENCE['phyclone.tree.tree.Tree.from_dict'] = """
+def from_dict(cls, tree_dict):
+    grid_size = tree_dict['grid_size']
+    if 'log_prior' in tree_dict:
+        log_prior = tree_dict['log_prior']
+    else:
+        log_prior = -np.log(grid_size[1])
+    new_graph = rx.PyDiGraph()
+    new = cls.__new__(cls)
+    new.grid_size = grid_size
+    new._graph = new_graph
+    new._log_prior = log_prior
+    new._data = defaultdict(list)
+    new._node_indices_rev = tree_dict['node_idx_rev'].copy()
+    new._node_indices = tree_dict['node_idx'].copy()
+    new._last_node_added_to = tree_dict['node_last_added_to']
+    new._data.update({k: v.copy() for k, v in tree_dict['node_data'].items()})
+    _ = new_graph.add_node(TreeNode(grid_size, log_prior, cls._ROOT_NODE_NAME))
+    if len(tree_dict['graph']) > 0:
+        node_idxs = tree_dict['node_idx']
+        new_graph.extend_from_edge_list(tree_dict['graph'])
+        root_name = cls._ROOT_NODE_NAME
+        outlier_node_name = cls._OUTLIER_NODE_NAME
+        for node, data_list in tree_dict['node_data'].items():
+            if node == outlier_node_name or node == root_name:
+                continue
+            node_obj = TreeNode(grid_size, log_prior, node)
+            node_obj.add_data_point_list(data_list)
+            node_idx = node_idxs[node]
+            new_graph[node_idx] = node_obj
+        node_index_holes = [idx for idx in new_graph.node_indices() if idx not in tree_dict['node_idx_rev']]
+        if len(node_index_holes) > 0:
+            new_graph.remove_nodes_from(node_index_holes)
+    new.update()
+    return new
+"""
+
+REFERENCE['phyclone.tree.tree.Tree.to_dict'] = """
+def to_dict(self):
+    tree_dict = {'graph': self._graph.edge_list(), 'node_idx': self._node_indices.copy(), 'node_idx_rev': self._node_indices_rev.copy(), 'node_data': {k: v.copy() for k, v in self._data.items()}, 'grid_size': self.grid_size, 'node_last_added_to': self._last_node_added_to, 'log_prior': self._log_prior}
+    return tree_dict
+"""
